@@ -38,6 +38,14 @@ CHECKS['C01'] = dict(level='model_checking', engine='statesearch',
    technique='explicit-state BFS (distributed over 16 processes, level-synchronous, canonical-state dedup) over event histories of 2-3 real sync-tree replicas with a harness-owned network; settle phase executed from every distinct state',
    text='All histories up to a depth bound of local edits / snapshots and per-message fates (deliver any in-flight head update, full-sync request or response stream; drop; duplicate; cut a response stream) over real synctree/objecttree replicas are enumerated; in every state the ancestry invariants (stored parents and snapshot bases, recorded heads = live heads, advertised heads held) are checked and from every distinct state both settle variants (drop all / flush all, then anti-entropy between every ordered pair) must end with equal heads and equal stored sets.',
    note='search runs over an in-memory implementation of the storage interfaces (real any-store replay of every short history must give the identical canonical state); one account on all replicas; depth-bounded because request/counter-request chains make the message-level space infinite', ref='5 C01')
+CHECKS['C14'] = dict(level='model_checking', engine='statesearch+mutate+sched',
+   technique='exhaustive enumeration of side-configuration pairs x stream chunkings, bounded exhaustive frame corruption / replay / cancellation-point enumeration, all pooled-object histories of length 2-3, and a deviation-bounded schedule exploration of 2-3 concurrent handshakes, all on the real handshake code inside synctest bubbles',
+   text='Both ends are the real OutgoingHandshake / IncomingHandshake with the real credential checkers over a harness-owned byte pipe with fake-clock deadlines: all 64x64 (version, accepted list, mode) pairs under whole / 1-byte / deviation-bounded chunkings against a rule-level reference and a byte-level proof oracle; every single-byte / truncation / type / length / drop / duplicate / swap / garbage corruption of every frame via a man-in-the-middle; replays across endpoints; every history of 2-3 handshakes over a one-object pool compared with a fresh object; cancellation before every conn operation; 2-3 concurrent handshakes over the shared pool with every pipe operation a scheduling point.',
+   note='under corruption / unilateral abort only success-implies-proof is judged (agreement is impossible); proof decoder is independent and lenient; error texts are not compared', ref='5 C14')
+CHECKS['C17'] = dict(level='model_checking', engine='statesearch+sched',
+   technique='exhaustive trie-vs-grammar enumeration; explicit-state BFS (replay + 1 event, canonical-state dedup, distributed over processes) over the real pubsub service in node and client role inside synctest bubbles with publish probes and teardown orders from every state; controlled-scheduler exploration of 17 two-operation races',
+   text='(a) all patterns/topics with <= 4 segments over a 6-segment alphabet and all Add/Remove sequences on the real trie vs a reference grammar and multiset; (b) BFS to depth 4 (quick) / 6 (thorough) over subscribe / unsubscribe / publish / close / evict / revalidate / close-space / clock events on the real service with a private real stream pool and fake streams; from every state ~30 publish variants are judged against a reference delivery model and 9-11 teardown orders must leave every interest map, trie and pool tag empty; (c) stream close vs subscribe / unsubscribe / CloseSpace / evict / publish fan-out schedules under the controlled scheduler, judged by linearizability of delivery and absence of leaked interest.',
+   note='rate limiter and dedup-ring eviction configured out of reach; status frames not judged; multi-stream operations racing a publish are judged per subscriber stream', ref='5 C17')
 NOT_YET = 'check not built yet (work in progress, see DESIGN.md section 10)'
 m = {
  'version': 1,
